@@ -124,6 +124,7 @@ Record cyc := mkcyc {
   y_pend : Z;               (* instant patch_and_check returned *)
   y_en : entry;             (* the script entry of this cycle (duration, latency, what the function did) *)
   y_done : bool;            (* state.done after the cycle *)
+  y_failed : bool;          (* the handler state's `failure` after the cycle: failed for good *)
   y_delayed : option Z      (* the handler state's `delayed` after the cycle *)
 }.
 
@@ -136,7 +137,7 @@ Inductive final :=
 | FStopped (t : Z)    (* the main loop saw the stopper *)
 | FOut (t : Z)        (* the script ended: the next cycle would start at t *)
 | FHorizon (t : Z)    (* asleep beyond the horizon since t *)
-| FStall (t : Z)      (* idle-only wait that never suspends (see DESIGN §9 F1; C09) *)
+| FStall (t : Z)      (* idle-only wait with idle <= 0 and no stopper set: never suspends *)
 | FCrash (t : Z)      (* ZeroDivisionError: sharp with interval 0 *)
 | FFuel (t : Z).      (* the model's fuel for the waiting loops ran out *)
 
@@ -159,13 +160,13 @@ Fixpoint idle_wait (fuel : nat) (e : env) (i : Z) (now : Z) : list ev * wres :=
       else ([], WGo now)
   end.
 
-(* `while memory.idle_reset_time <= started: await aiotime.sleep(handler.idle, wakeup=...)` *)
+(* `while memory.idle_reset_time <= started and not stopper.is_set(): await aiotime.sleep(handler.idle, wakeup=...)` *)
 Fixpoint idle_only_wait (fuel : nat) (e : env) (i started now : Z) : list ev * wres :=
   match fuel with
   | O => ([], WEnd (FFuel now))
   | S f =>
-      if irt e now <=? started then
-        if (i <=? 0) || stopped e now then ([], WEnd (FStall now))       (* the sleep returns at once, forever *)
+      if (irt e now <=? started) && negb (stopped e now) then
+        if i <=? 0 then ([], WEnd (FStall now))       (* sleep(<=0) returns at once, forever (no stopper set) *)
         else match sleep e now i with
              | Woke t => let '(evs, r) := idle_only_wait f e i started t in (sleep_ev e now i :: evs, r)
              | PastHorizon => ([sleep_ev e now i], WEnd (FHorizon now))
@@ -200,11 +201,16 @@ Definition pre_wait (fuel : nat) (c : cfg) (e : env) (now : Z) : list ev * wres 
   | None => ([], WGo now)
   end.
 
+(* `if state.done and not state[handler.id].failure: state = State.from_scratch()...`: the retry counters are
+   reset after a success only; a handler that failed for good keeps its state and is never selected again *)
+Definition reset_if_succeeded (h : hst) (now : Z) : hst :=
+  if finished h && negb (h_failure h) then fresh now else h.
+
 (* the main loop; one script entry per cycle *)
 Fixpoint loop (fuel : nat) (c : cfg) (e : env) (script : list entry) (now : Z) (h : hst) : list ev * final :=
   if stopped e now then ([], FStopped now)
   else
-    let h1 := if finished h then fresh now else h in
+    let h1 := reset_if_succeeded h now in
     match pre_wait fuel c e now with
     | (evs0, WEnd f) => (evs0, f)
     | (evs0, WGo t) =>
@@ -213,7 +219,7 @@ Fixpoint loop (fuel : nat) (c : cfg) (e : env) (script : list entry) (now : Z) (
              | [] => (evs0, FOut t)
              | en :: rest =>
                  let '(inv, hend, h2) := exec c h1 t en in
-                 let y := mkcyc t inv hend (hend + Z.max 0 (e_plat en)) en (finished h2) (h_delayed h2) in
+                 let y := mkcyc t inv hend (hend + Z.max 0 (e_plat en)) en (finished h2) (h_failure h2) (h_delayed h2) in
                  match post fuel c e y h2 with
                  | (evs1, WEnd f) => (evs0 ++ ECyc y :: evs1, f)
                  | (evs1, WGo t') =>
@@ -264,7 +270,10 @@ Definition wf_cyc (c : cfg) (y : cyc) : Prop :=
   y_start y <= y_hend y /\ y_hend y <= y_pend y /\
   y_pend y = y_hend y + Z.max 0 (e_plat (y_en y)) /\
   y_hend y = (if y_inv y then y_start y + Z.max 0 (e_dur (y_en y)) else y_start y) /\
-  (y_inv y = true -> y_done y = false -> y_delayed y = expected_delayed c y /\ e_out (y_en y) <> OOk /\ e_out (y_en y) <> OPerm).
+  (y_inv y = true -> y_done y = false -> y_delayed y = expected_delayed c y /\ e_out (y_en y) <> OOk /\ e_out (y_en y) <> OPerm) /\
+  (y_inv y = true -> y_done y = true -> y_failed y = false ->
+     e_out (y_en y) = OOk \/ (e_out (y_en y) = OArb /\ c_errors c = EIgnored)) /\
+  (y_failed y = true -> y_done y = true).
 
 (* the instant b at which the timer begins to look at the idle time for its next run *)
 Definition next_base (c : cfg) (e : env) (y : cyc) (b : Z) : Prop :=
